@@ -214,6 +214,15 @@ def literals(e, pos=True, kind='cond'):
         for a in e.args:
             out += literals(a, True, kind)
         return out
+    if e.op == '&' and pos and any(_known_one_bit(a) for a in e.args) and \
+            all(_known_one_bit(a) or (isinstance(a, E) and isinstance(a.w, int) and a.w > 1) for a in e.args):
+        # a condition `wide & flag`: Amaranth zero-extends the (unsigned) one-bit operand, so every bit of the result
+        # above bit 0 is 0 and the condition is true iff bit 0 of every wide operand and every flag is 1 -- NOT iff the
+        # wide operand is non-zero.  Written out, so that rules see what the hardware tests.
+        out = []
+        for a in e.args:
+            out += literals(a if _known_one_bit(a) else E('slice', (a, 0, 1), w=1), True, kind)
+        return out
     if e.op == '|' and not pos and all(_is_bool(a) for a in e.args):
         out = []
         for a in e.args:
@@ -231,6 +240,19 @@ def literals(e, pos=True, kind='cond'):
     if e.op == 'call' and e.args[0] == 'bool' and len(e.args) == 2 and isinstance(e.args[1], E):
         return literals(e.args[1], pos, kind) if _is_bool(e.args[1]) else [Lit(e, pos, kind)]
     return [Lit(e, pos, kind)]
+
+
+def _known_one_bit(e):
+    """Certainly one bit wide and unsigned (comparison results, 1-bit signals / slices, and their combinations)."""
+    if not isinstance(e, E):
+        return False
+    if e.op in ('==', '!=', '<', '<=', '>', '>=', 'ongoing'):
+        return True
+    if e.op in ('&', '|', '^', '~'):
+        return all(_known_one_bit(a) for a in e.args)
+    if e.op == 'call' and e.args[0] in ('any', 'all', 'bool', 'matches', 'xor'):
+        return True
+    return e.w == 1
 
 
 def _is_bool(e):
